@@ -591,7 +591,7 @@ def gen_trace_header(self, index, load_all_headers=False):
     for k, v in header.items():
         if isinstance(v, FileOffset):
             if H_viaarrays:
-                self.read_variant_headers()
+                self._load_variant_headers(False)
                 header[k] = self.variant_headers[k][index]
             else:
                 buf = self.file.read_range(self.file, H_wordoff, H_wordlen)
@@ -616,6 +616,17 @@ def read_variant_headers(self, include_padding=False, tracefields=None):
                 values = np.frombuffer(buffer, dtype=np.int32)
                 self.variant_headers[k] = values[self.mask] if use_mask else values
 '''
+T_RD_LOAD = '''
+def _load_variant_headers(self, include_padding, tracefields=None):
+    if not self.structured and self.include_padding not in (None, include_padding):
+        self.clear_variant_headers()
+    self.read_variant_headers(include_padding=include_padding, tracefields=tracefields)
+'''
+T_RD_CLEAR = '''
+def clear_variant_headers(self):
+    self.variant_headers.clear()
+    self.include_padding = None
+'''
 T_RD_MASK = '''
 def get_unstructured_mask(self):
     if self.mask is None:
@@ -626,9 +637,13 @@ def get_unstructured_mask(self):
 '''
 T_RD_1D = '''
 def get_tracefield_1d(self, tracefield):
-    self.read_variant_headers(include_padding=True, tracefields=[segyio.tracefield.TraceField(tracefield)])
+    self._load_variant_headers(True, tracefields=[segyio.tracefield.TraceField(tracefield)])
     if tracefield not in self.variant_headers:
-        return np.full(H_filllen, self.segy_traceheader_template[tracefield], dtype=np.int32)
+        values = np.full(H_filllen, self.segy_traceheader_template[tracefield], dtype=np.int32)
+        if H_fillmask:
+            self.get_unstructured_mask()
+            values[~self.mask] = 0
+        return values
     return self.variant_headers[tracefield]
 '''
 T_RD_VALUES = '''
@@ -882,6 +897,8 @@ def generate(srcdir):
     sz = match_function(rd, R + '_parse_data_sizes', T_RD_SIZES)
     gn = match_function(rd, R + 'gen_trace_header', T_RD_GEN)
     vh = match_function(rd, R + 'read_variant_headers', T_RD_VARIANT)
+    match_function(rd, R + '_load_variant_headers', T_RD_LOAD)     # = read_variant_headers(include_padding, tracefields) on a
+    match_function(rd, R + 'clear_variant_headers', T_RD_CLEAR)    # cache that holds arrays of that padding mode only
     mk_ = match_function(rd, R + 'get_unstructured_mask', T_RD_MASK)
     f1d = match_function(rd, R + 'get_tracefield_1d', T_RD_1D)
     match_function(rd, R + 'get_tracefield_values', T_RD_VALUES)
@@ -913,6 +930,8 @@ def generate(srcdir):
                'read_variant_headers: values[self.mask] if use_mask else values; values = hel bytes at the FileOffset as int32'))
     emit(_defn('hx_rd_fill_len', [('hel', 'Z')], 'Z', trr.z(f1d['H_filllen']),
                'get_tracefield_1d: a field that is not stored returns np.full(..., template[field])'))
+    emit(_defn('hx_rd_fill_masked', [('is_3d', 'bool'), ('structured', 'bool')], 'bool', trb.b(f1d['H_fillmask']),
+               'get_tracefield_1d: ... with values[~mask] = 0 when'))
     emit(_defn('hx_rd_mask_field', [], 'Z', str(_int(mk_['H_maskfield'])), 'get_unstructured_mask reads the array of this field'))
     mr = mk_['H_maskrule']
     if ast.unparse(mr) != 'np.frombuffer(buffer, dtype=np.int32) != 0':
